@@ -24,7 +24,7 @@ def tHex (b : Bytes) : String := String.ofList (hexN 16 (de (b.take 8)))
 
 def parseVariant (s : String) : Variant :=
   match s.toList with
-  | [a, b, c] => ⟨a == '1', b == '1', c == '1'⟩
+  | [a, b, c, d] => ⟨a == '1', b == '1', c == '1', d == '1'⟩
   | _ => Variant.current
 
 def entryStr (e : Entry) : String :=
